@@ -22,6 +22,9 @@ REQUIRED_THEOREMS = [
     "TapkeeVerif.Knn.CoverQuery.cover_query_exact",
     "TapkeeVerif.Knn.CoverQuery.cover_tree_exact",
     "TapkeeVerif.Knn.CoverQuery.cover_copy_bound_refuted",
+    "TapkeeVerif.Knn.CoverQuery.batchCreate_leaves",
+    "TapkeeVerif.Knn.CoverQuery.batchCreate_wf",
+    "TapkeeVerif.Knn.CoverQuery.cover_tree_end_to_end",
 ]
 METHODS = ["brute", "vptree", "covertree"]
 
